@@ -6,6 +6,7 @@ import (
 	"go/token"
 	"go/types"
 	"math/big"
+	"os"
 	"sort"
 	"strings"
 
@@ -14,10 +15,18 @@ import (
 
 // ---------- path state ----------
 type storeNode struct {
-	prev *storeNode
-	key  []*T
-	val  Value // nil = tombstone
-	n    int
+	prev  *storeNode
+	key   []*T
+	val   Value // nil = tombstone
+	n     int
+	guard *T // nil = unconditional; otherwise the write happened only where guard holds (merged paths)
+}
+
+func (n *storeNode) g() *T {
+	if n.guard == nil {
+		return tTrue
+	}
+	return n.guard
 }
 
 type notif struct {
@@ -27,9 +36,168 @@ type notif struct {
 }
 
 type notifNode struct {
-	prev *notifNode
-	n    notif
-	cnt  int
+	prev  *notifNode
+	n     notif
+	cnt   int // depth
+	guard *T  // nil = unconditional
+}
+
+func (n *notifNode) g() *T {
+	if n.guard == nil {
+		return tTrue
+	}
+	return n.guard
+}
+
+func guardAnd(g, c *T) *T {
+	if g == nil {
+		return c
+	}
+	return And(g, c)
+}
+
+// mergeStores joins two storage logs that share an ancestor: writes made on one side only become
+// guarded by that side's path condition (the two conditions are disjoint: they come from one fork).
+func mergeStores(a, b *storeNode, ca, cb *T) *storeNode {
+	if a == b {
+		return a
+	}
+	da, db := 0, 0
+	if a != nil {
+		da = a.n
+	}
+	if b != nil {
+		db = b.n
+	}
+	var ea, eb []*storeNode
+	x, y := a, b
+	for da > db {
+		ea = append(ea, x)
+		x = x.prev
+		da--
+	}
+	for db > da {
+		eb = append(eb, y)
+		y = y.prev
+		db--
+	}
+	for x != y {
+		ea = append(ea, x)
+		eb = append(eb, y)
+		x, y = x.prev, y.prev
+	}
+	anc := x
+	// same writes on both sides (same keys, mergeable values): merge value-wise, keep the log short
+	if len(ea) == len(eb) {
+		same := true
+		vals := make([]Value, len(ea))
+		for i := range ea {
+			p, q := ea[i], eb[i]
+			if p.guard != nil || q.guard != nil || bytesEq(p.key, q.key) != tTrue || (p.val == nil) != (q.val == nil) {
+				same = false
+				break
+			}
+			if p.val != nil {
+				m, ok := mergeVal(ca, p.val, q.val)
+				if !ok {
+					same = false
+					break
+				}
+				vals[i] = m
+			}
+		}
+		if same {
+			cur := anc
+			for i := len(ea) - 1; i >= 0; i-- {
+				cur = &storeNode{prev: cur, key: ea[i].key, val: vals[i], n: depthOf(cur) + 1}
+			}
+			return cur
+		}
+	}
+	cur := anc
+	for i := len(ea) - 1; i >= 0; i-- {
+		cur = &storeNode{prev: cur, key: ea[i].key, val: ea[i].val, n: depthOf(cur) + 1, guard: guardAnd(ea[i].guard, ca)}
+	}
+	for i := len(eb) - 1; i >= 0; i-- {
+		cur = &storeNode{prev: cur, key: eb[i].key, val: eb[i].val, n: depthOf(cur) + 1, guard: guardAnd(eb[i].guard, cb)}
+	}
+	return cur
+}
+
+func depthOf(n *storeNode) int {
+	if n == nil {
+		return 0
+	}
+	return n.n
+}
+
+func mergeNotifs(a, b *notifNode, ca, cb *T) *notifNode {
+	if a == b {
+		return a
+	}
+	da, db := 0, 0
+	if a != nil {
+		da = a.cnt
+	}
+	if b != nil {
+		db = b.cnt
+	}
+	var ea, eb []*notifNode
+	x, y := a, b
+	for da > db {
+		ea = append(ea, x)
+		x = x.prev
+		da--
+	}
+	for db > da {
+		eb = append(eb, y)
+		y = y.prev
+		db--
+	}
+	for x != y {
+		ea = append(ea, x)
+		eb = append(eb, y)
+		x, y = x.prev, y.prev
+	}
+	anc := x
+	dep := func(n *notifNode) int {
+		if n == nil {
+			return 0
+		}
+		return n.cnt
+	}
+	if len(ea) == len(eb) {
+		same := true
+		args := make([][]Value, len(ea))
+		for i := range ea {
+			p, q := ea[i], eb[i]
+			if p.guard != nil || q.guard != nil || p.n.name != q.n.name || p.n.contract != q.n.contract || len(p.n.args) != len(q.n.args) {
+				same = false
+				break
+			}
+			m, ok := mergeVals(ca, p.n.args, q.n.args, func(f []Value) Value { return f })
+			if !ok {
+				same = false
+				break
+			}
+			args[i] = m.([]Value)
+		}
+		if same {
+			cur := anc
+			for i := len(ea) - 1; i >= 0; i-- {
+				cur = &notifNode{prev: cur, n: notif{ea[i].n.contract, ea[i].n.name, args[i]}, cnt: dep(cur) + 1}
+			}
+			return cur
+		}
+	}
+	cur := anc
+	for i := len(ea) - 1; i >= 0; i-- {
+		cur = &notifNode{prev: cur, n: ea[i].n, cnt: dep(cur) + 1, guard: guardAnd(ea[i].guard, ca)}
+	}
+	for i := len(eb) - 1; i >= 0; i-- {
+		cur = &notifNode{prev: cur, n: eb[i].n, cnt: dep(cur) + 1, guard: guardAnd(eb[i].guard, cb)}
+	}
+	return cur
 }
 
 type State struct {
@@ -175,6 +343,7 @@ type Engine struct {
 	model    map[string]string // non-nil: replay mode (concrete interpretation)
 	worldUsed bool
 	roDepth   int
+	feasCache map[[2]int]bool
 	allCovers bool
 	sigMsg    map[int]BytesV
 	obs       map[string]*Obligation
@@ -213,14 +382,20 @@ func (e *Engine) namedBytes(n string, ln int) BytesV {
 	}
 	b := make([]*T, ln)
 	for i := range b {
-		b[i] = Var(fmt.Sprintf("%s_%d", n, i), 'I')
-		r := And(Le(I(0), b[i]), Le(b[i], I(255)))
+		b[i] = VarByte(fmt.Sprintf("%s_%d", n, i))
+	}
+	e.named[n] = BytesV{b}
+	if ln == 20 { // environment assumption: no input equals the hash of the invoking script
+		r := Not(bytesEq(b, constBytes(entryScriptHash).b))
 		e.ranges = append(e.ranges, r)
 		e.solver.assertBase(r)
 	}
-	e.named[n] = BytesV{b}
 	return BytesV{b}
 }
+
+var progress = os.Getenv("NEOSYM_PROGRESS") != ""
+
+const entryScriptHash = "\xeeneosym-entry-script"
 
 // ---------- CFG analysis ----------
 func (e *Engine) analyse(fn *ssa.Function) *fnInfo {
@@ -272,7 +447,18 @@ func (e *Engine) analyse(fn *ssa.Function) *fnInfo {
 
 // ---------- merging ----------
 func (e *Engine) mergeSt(a, b *St) bool {
-	if a.store != b.store || a.notifs != b.notifs || a.txStore0 != b.txStore0 || len(a.pending) != len(b.pending) {
+	// conditions relative to the common prefix of the two path conditions: smaller ite/guard terms
+	sa, sb := spine(a.pc), spine(b.pc)
+	k := 0
+	for k < len(sa) && k < len(sb) && sa[k] == sb[k] {
+		k++
+	}
+	ra, rb := conj(sa[k:]), conj(sb[k:])
+	ca, cb := ra, rb
+	if k < len(sa) && k < len(sb) && sa[k] == Not(sb[k]) { // the first differing conjunct separates the two sides
+		ca, cb = sa[k], sb[k]
+	}
+	if a.txStore0 != b.txStore0 || len(a.pending) != len(b.pending) {
 		return false
 	}
 	for i := range a.pending {
@@ -302,7 +488,7 @@ func (e *Engine) mergeSt(a, b *St) bool {
 			if !ok {
 				return false
 			}
-			m, ok := mergeVal(a.pc, x.v, y.v)
+			m, ok := mergeVal(ca, x.v, y.v)
 			if !ok {
 				return false
 			}
@@ -312,7 +498,7 @@ func (e *Engine) mergeSt(a, b *St) bool {
 			if !ok || len(x.e) != len(y.e) {
 				return false
 			}
-			m, ok := mergeVals(a.pc, x.e, y.e, func(f []Value) Value { return f })
+			m, ok := mergeVals(ca, x.e, y.e, func(f []Value) Value { return f })
 			if !ok {
 				return false
 			}
@@ -345,7 +531,7 @@ func (e *Engine) mergeSt(a, b *St) bool {
 				}
 			}
 		}
-		m, ok := mergeVal(a.pc, va, vb)
+		m, ok := mergeVal(ca, va, vb)
 		if !ok {
 			return false
 		}
@@ -358,15 +544,15 @@ func (e *Engine) mergeSt(a, b *St) bool {
 		if !ok {
 			o = I(0)
 		}
-		gas[k] = Ite(a.pc, v, o)
+		gas[k] = Ite(ca, v, o)
 	}
 	for k, v := range b.gas {
 		if _, ok := a.gas[k]; !ok {
-			gas[k] = Ite(a.pc, I(0), v)
+			gas[k] = Ite(ca, I(0), v)
 		}
 	}
-	a.State = &State{pc: Or(a.pc, b.pc), heap: heap, store: a.store, notifs: a.notifs,
-		height: Ite(a.pc, a.height, b.height), lastTime: Ite(a.pc, a.lastTime, b.lastTime), gas: gas,
+	a.State = &State{pc: And(conj(sa[:k]), Or(ra, rb)), heap: heap, store: mergeStores(a.store, b.store, ca, cb), notifs: mergeNotifs(a.notifs, b.notifs, ca, cb),
+		height: Ite(ca, a.height, b.height), lastTime: Ite(ca, a.lastTime, b.lastTime), gas: gas,
 		pending: a.pending, txStore0: a.txStore0, txGas0: a.txGas0}
 	e.stats.merges++
 	return true
@@ -431,15 +617,49 @@ func (e *Engine) runFrame(fn *ssa.Function, args []Value, s *State) []Out {
 			}
 			return a.ip < b.ip
 		})
-		cur := active[0]
-		rest := active[1:]
+		var group []*St
+		rest := active
 		active = nil
 		for _, o := range rest {
-			if o.blk == cur.blk && o.ip == cur.ip && e.mergeSt(cur, o) {
-				continue
+			if o.blk == rest[0].blk && o.ip == rest[0].ip {
+				group = append(group, o)
+			} else {
+				active = append(active, o)
 			}
-			active = append(active, o)
 		}
+		// merge the states standing at this point, closest relatives (longest common path-condition prefix) first
+		failed := map[[2]*St]bool{}
+		for len(group) > 1 {
+			bi, bj, best := -1, -1, -1
+			spines := make([][]*T, len(group))
+			for i := range group {
+				spines[i] = spine(group[i].pc)
+			}
+			for i := 0; i < len(group); i++ {
+				for j := i + 1; j < len(group); j++ {
+					if failed[[2]*St{group[i], group[j]}] {
+						continue
+					}
+					k := 0
+					for k < len(spines[i]) && k < len(spines[j]) && spines[i][k] == spines[j][k] {
+						k++
+					}
+					if k > best {
+						bi, bj, best = i, j, k
+					}
+				}
+			}
+			if bi < 0 {
+				break
+			}
+			if e.mergeSt(group[bi], group[bj]) {
+				group = append(group[:bj], group[bj+1:]...)
+			} else {
+				failed[[2]*St{group[bi], group[bj]}] = true
+			}
+		}
+		cur := group[0]
+		active = append(active, group[1:]...)
 		next, fin := e.execBlock(fn, cur)
 		outs = append(outs, fin...)
 		for _, n := range next {
@@ -456,7 +676,7 @@ func (e *Engine) runFrame(fn *ssa.Function, args []Value, s *State) []Out {
 		merged := false
 		for i := range res {
 			r := &res[i]
-			if r.panicked == o.panicked && r.store == o.store && r.notifs == o.notifs {
+			if r.panicked == o.panicked {
 				a := &St{State: r.State, env: map[ssa.Value]Value{nil: r.val}}
 				b := &St{State: o.State, env: map[ssa.Value]Value{nil: o.val}}
 				if e.mergeSt(a, b) {
@@ -623,6 +843,9 @@ func isByteSlice(t types.Type) bool {
 // execBlock runs one state to the end of its block (or to a call/fork).
 func (e *Engine) execBlock(fn *ssa.Function, s *St) ([]succ, []Out) {
 	e.stats.blocks++
+	if progress && e.stats.blocks%2000 == 0 {
+		fmt.Fprintf(os.Stderr, "progress: blocks=%d forks=%d merges=%d feas=%d queries=%d solver=%v in %s\n", e.stats.blocks, e.stats.forks, e.stats.merges, e.stats.feas, e.stats.queries, e.solver.time, fn.Name())
+	}
 	blk := s.blk
 	goTo := func(st *St, to *ssa.BasicBlock) succ {
 		e.enter(st, blk, to)
@@ -876,7 +1099,11 @@ func (e *Engine) execBlock(fn *ssa.Function, s *St) ([]succ, []Out) {
 				}
 				return []succ{goTo(s, blk.Succs[1])}, nil
 			}
-			ft, ff := e.feasible(s.State, c), e.feasible(s.State, Not(c))
+			ft := e.feasible(s.State, c)
+			ff := true
+			if ft { // an infeasible side leaves the other one as the only continuation: no second query
+				ff = e.feasible(s.State, Not(c))
+			}
 			switch {
 			case ft && !ff:
 				return []succ{goTo(s, blk.Succs[0])}, nil
@@ -1100,10 +1327,7 @@ func (e *Engine) intToBytes(s *St, x *T) []coerced {
 		e.fresh++
 		bs := make([]*T, k)
 		for i := 0; i < k; i++ {
-			bs[i] = Var(fmt.Sprintf("enc%d_%d", e.fresh, i), 'I')
-			r := And(Le(I(0), bs[i]), Le(bs[i], I(255)))
-			e.ranges = append(e.ranges, r)
-			e.solver.assertBase(r)
+			bs[i] = VarByte(fmt.Sprintf("enc%d_%d", e.fresh, i))
 		}
 		cond = And(cond, Eq(x, bytesToInt(bs)))
 		out = append(out, coerced{cond, BytesV{bs}})
@@ -1214,7 +1438,7 @@ func (e *Engine) concretize(s *State, t *T, limit int) []int64 {
 	var vals []int64
 	blocked := tTrue
 	for {
-		r, m := e.solver.check(append(append([]*T(nil), e.ranges...), s.pc, blocked), []*T{t})
+		r, m := e.solver.check(s.pc, []*T{blocked}, []*T{t})
 		if r != "sat" {
 			return vals
 		}
